@@ -83,8 +83,18 @@ impl ErrInto<ConnectionInnerError> for TransportError { open spec fn conv(self) 
 impl ErrInto<ConnectionInnerError> for ConnectionStateError { open spec fn conv(self) -> ConnectionInnerError { state_err_to_inner(self) } fn err_into(self) -> (r: ConnectionInnerError) { state_err_into(self) } }
 
 impl Frame {
-    pub fn new(channel: u16, body: FrameBody) -> (r: Self) ensures r.channel == channel, r.body == body { Frame { channel, body } }
-    pub fn empty() -> (r: Self) ensures r == (Frame { channel: 0, body: FrameBody::Empty }) { Frame { channel: 0, body: FrameBody::Empty } }
+//@@ fn file=fe2o3-amqp/src/frames/amqp.rs impl=`impl Frame` name=new id=Frame::new
+//@@ param channel : u16
+//@@ subst `channel.into()` => `channel` rule=optional-R7
+//@@ subst `Self {` => `Frame {` rule=optional-R2
+//@@ spec
+    ensures r.channel == channel, r.body == body,       // (a frame is built for the channel and with the body given)
+//@@ end
+//@@ fn file=fe2o3-amqp/src/frames/amqp.rs impl=`impl Frame` name=empty id=Frame::empty
+//@@ subst `Self {` => `Frame {` rule=optional-R2
+//@@ spec
+    ensures r == (Frame { channel: 0, body: FrameBody::Empty }),       // [C17.heartbeat.empty-frame-is-channel-0-without-body] the frame a heartbeat writes is the empty frame: channel 0, no performative, no payload (AMQP 2.4.5)
+//@@ end
 }
 impl SessionFrame {
     pub fn new(channel: u16, body: SessionFrameBody) -> (r: Self) ensures r.channel == channel, r.body == body { SessionFrame { channel, body } }
